@@ -208,8 +208,14 @@ func (l *layoutSpec) idClasses(q *querySpec) []string {
 
 // TestSeriesIDContainers: layout independence where shards hold the metric's series in several roaring containers.
 func TestSeriesIDContainers(t *testing.T) {
-	b := caseBudget{layouts: 3, queries: 3, midSample: 2, scheds: 1, containers: true}
-	rapid.Check(t, func(t *rapid.T) { runCase(t, "TestSeriesIDContainers", b) })
+	rapid.Check(t, func(t *rapid.T) {
+		b := caseBudget{layouts: 3, queries: 3, midSample: 2, scheds: 1, containers: true}
+		// 1 of 3 cases: two data families with flushes between the requests (the case shape of
+		// TestStoredFamiliesAndRequestBatching), so that the leaf reads the containers from files and from memory
+		b.stored = rapid.IntRange(0, 2).Draw(t, "storedData") == 0
+		if b.stored {
+			ev.Class("TestSeriesIDContainers", "case:stored-data(flushes-between-the-requests)", 1)
+		}
+		runCase(t, "TestSeriesIDContainers", b)
+	})
 }
-
-var _ = ev.Class
